@@ -78,6 +78,12 @@ func replayC14(c *Ctx, op string, a map[string]string) {
 	switch op {
 	case "appr.client":
 		apprClient(c, splitList(a["white"]), splitList(a["black"]), unhx(a["pid"]), a["scrape"] == "1")
+	case "cfg.hooks":
+		if a["list"] == "-" || a["list"] == "" {
+			cfgHooks(c, nil)
+		} else {
+			cfgHooks(c, strings.Split(a["list"], ","))
+		}
 	case "appr.torrent":
 		apprTorrent(c, splitList(a["white"]), splitList(a["black"]), unhx(a["ih"]), a["scrape"] == "1")
 	}
@@ -89,6 +95,12 @@ func runC14(c *Ctx) {
 		replayC14(c, op, a)
 	}
 	r := c.R
+	// hook lists as a configuration file gives them: the same hook may be listed twice with different options,
+	// every entry is validated and applied on its own
+	for _, l := range [][]string{{"ta:ok", "ta:badhex"}, {"ca:ok", "ca:badlen"}, {"ca:ok", "ca:both"}, {"ta:ok", "ta:both"}, {"ta:ok", "ta:ok"}, {"ca:ok", "ta:ok", "ca:badlen"}} {
+		cfgHooks(c, l)
+	}
+	genHookLists(c, r, 20)
 	alpha := "ABCDEFGHIJKLMNOPQRSTUVWXYZabcdef0123456789-~."
 	genCID := func() string {
 		b := make([]byte, 6)
